@@ -1606,8 +1606,9 @@ impl StorageEngine {
                             result.truncate(n);
                             result
                         } else {
-                            let n = (-count) as usize;
-                            let mut result = Vec::with_capacity(n);
+                            let n = count.unsigned_abs() as usize;
+                            // Grow as elements are produced instead of reserving by the requested count
+                            let mut result = Vec::with_capacity(n.min(1024));
                             for _ in 0..n {
                                 if let Some(member) = members.choose(&mut rng) {
                                     result.push(member.clone());
